@@ -207,6 +207,19 @@ class Ctx:
                 done += 1
                 extra |= ax - STD_AXIOMS
         self.cov['discharged'] = done
+        if self.tier == 'thorough':
+            # independent re-check of the compiled modules by the toolchain's kernel replayer
+            replayed = []
+            for m in modules:
+                if m.startswith('LibrfnMath'):
+                    continue      # would replay all of Mathlib's dependencies: out of budget
+                with lake_lock():
+                    rc, out, err = sh(['lake', 'env', 'leanchecker', m], cwd=LEAN, timeout=1800)
+                if rc != 0:
+                    self.broken.append(f'leanchecker rejects {m}: ' + (out + err)[-400:])
+                else:
+                    replayed.append(m)
+            self.cov['leanchecker_replayed'] = replayed
         tb = ['Lean 4.33.0 kernel', 'axioms: ' + ', '.join(sorted(set(a for v in self.theorem_axioms.values() for a in v) & STD_AXIOMS)) or 'none']
         if extra:
             tb.append('bv_decide certificates (ofReduceBool-style axioms): ' + ', '.join(sorted(extra)))
